@@ -266,6 +266,26 @@ class Gen:
         self.extra.append([g, x])
         return g
 
+    def _feedback_collect(self):
+        """u -> collect, flushed by a dedicated trigger entry; what the flush delivers is flattened, halved, guarded and
+        fed back into u: an element that arrives at the collector WHILE it is delivering a collection"""
+        r = self.r
+        cands = [n['id'] for n in self.nodes if n['op'] in ('source', 'map') and self.kind[n['id']] == 'int']
+        if not cands:
+            return None
+        u = r.choice(cands)
+        c = self._new('collect', [u], ('tup', 0))
+        trig = self._new('source', [], 'int')
+        self.entry_kinds[trig] = 'int'
+        self._new('sink_flush', [trig], None, target=c)
+        f = self._new('flatten', [c], 'any')
+        m = self._new('map', [f], 'int', f='half')
+        f1 = self._new('filter', [m], 'int', p='pos')
+        f2 = self._new('filter', [f1], 'int', p='small')
+        g = self._new('unique', [f2], 'int', maxsize=None, key='ident', hashable=True)
+        self.extra.append([g, u])
+        return c
+
     def _late_join(self):
         """connect() one more (already existing, earlier created) node to an existing union / zip / combine_latest"""
         r = self.r
@@ -326,6 +346,8 @@ class Gen:
             self._feedback_general()
         elif self.allow_feedback and r.random() < 0.12:
             self._late_join()
+        elif self.allow_feedback and saved_collect and r.random() < 0.05:
+            self._feedback_collect()
         self.allow_collect = saved_collect
         # sinks on every leaf and on some inner nodes
         has_child = set()
@@ -489,7 +511,7 @@ def build_node(spec, S, calls, fn_wrap=None, source_kwargs=None):
 
             def flusher(x, nid=nid, target=target):
                 calls.append((nid, x))
-                target.flush()
+                return target.flush()           # what `trigger.sink(collector.flush)` hands back to the trigger's emit
             n = ups[0].sink(fw(nid, 'sink', flusher))
         else:
             raise ValueError(op)
